@@ -840,6 +840,15 @@ def check_sections(out, c, tmp, run_cli):
                 p = sig.parameters.get(k)
                 if p is not None and p.default is not inspect.Parameter.empty and not _same_default(v, p.default):
                     out.fail('keys-reach-constructor@%s.%s,default' % (cname, k), '%s omitted, constructor received %r instead of the default %r' % (k, v, p.default))
+    # the number of emission angles the built model integrates over is the documented ngauss (default 4), whichever model
+    # class the key was addressed to
+    if c['family'] != 'transmission' and hasattr(model, '_mu_quads'):
+        out.applies('quadrature-count')
+        want_ng = int(c['mkeys']['ngauss']) if c['mkeys']['ngauss'] is not None else 4
+        got_ng = int(np.size(model._mu_quads))
+        if got_ng != want_ng:
+            out.fail('quadrature-count@%s,%s' % (c['family'], 'given' if c['mkeys']['ngauss'] is not None else 'default'),
+                     'ngauss = %s in the file, the model integrates over %d angles' % (c['mkeys']['ngauss'], got_ng))
     tp = model.temperature
     if c['composite'] == 'custom' and not negative:
         out.applies('custom-class')
